@@ -395,6 +395,7 @@ func (rw *rewriter) rangeStmt(rs *ast.RangeStmt) {
 func (rw *rewriter) collect() {
 	labelled := map[ast.Stmt]bool{}
 	twoValue := map[*ast.TypeAssertExpr]bool{}
+	inParams := map[*ast.Field]bool{}
 	ast.Inspect(rw.file, func(n ast.Node) bool {
 		switch v := n.(type) {
 		case *ast.LabeledStmt:
@@ -422,7 +423,25 @@ func (rw *rewriter) collect() {
 					twoValue[ta] = true
 				}
 			}
+		case *ast.Field:
+			// rule tcpconn, second half: a parameter of type *net.TCPConn becomes verifhook.TCPLike, so
+			// that the accept path can be driven with a simulated connection
+			if rw.rules["tcpconn"] && rw.netName != "" && inParams[v] {
+				if st, ok := v.Type.(*ast.StarExpr); ok {
+					if _, ok := isPkgSel(st.X, rw.netName, "TCPConn"); ok {
+						e := &edit{lo: rw.off(v.Type.Pos()), hi: rw.off(v.Type.End())}
+						e.gen = func() string { return hookName + ".TCPLike" }
+						rw.edits = append(rw.edits, e)
+						rw.counts["tcpconn-param"]++
+					}
+				}
+			}
 		case *ast.FuncDecl:
+			if v.Type != nil && v.Type.Params != nil {
+				for _, f := range v.Type.Params.List {
+					inParams[f] = true
+				}
+			}
 			if v.Body != nil && rw.entries[v.Name.Name] {
 				// rule entry=F+G: a scheduling point at the entry of the listed functions / methods
 				e := &edit{lo: rw.off(v.Body.Lbrace) + 1, hi: rw.off(v.Body.Lbrace) + 1}
